@@ -68,7 +68,17 @@ func c10Build(feats []string) map[string]any {
 	comps := map[string]any{"schemas": map[string]any{"Item": item}}
 	doc := map[string]any{"openapi": "3.0.3", "info": map[string]any{"title": "t", "version": "1"}, "components": comps}
 	pathItem := map[string]any{}
+	// features that add to the request body come before the one that removes it
+	ordered := make([]string, 0, len(feats))
 	for _, f := range feats {
+		if f != "no_request_body" {
+			ordered = append(ordered, f)
+		}
+	}
+	if has(feats, "no_request_body") {
+		ordered = append(ordered, "no_request_body")
+	}
+	for _, f := range ordered {
 		switch f {
 		case "excl_min_without_min":
 			props["id"].(map[string]any)["exclusiveMinimum"] = true
